@@ -939,6 +939,38 @@ class Program:
                     continue
                 for n in self.callee_nodes(e):
                     s.add(n)
+            # a value of a workspace type that implements an *external* trait (e.g. a hand-written
+            # nom Parser) may be driven by external generic code: add edges to those impl methods
+            if not hasattr(self, "_ext_impls"):
+                self._ext_impls = defaultdict(list)
+                crates = {c.split(":")[0] for c in self.crates}
+                for g in self.fns.values():
+                    if g.impl_adt and g.impl_trait and g.impl_trait.split("::")[0] not in crates and g.impl_adt.split("::")[0] in crates:
+                        if g.impl_trait.split("::")[0] in ("core", "alloc", "std", "serde", "serde_core"):
+                            continue
+                        self._ext_impls[g.impl_adt].append(g.id)
+            if self._ext_impls:
+                tys = set(f.locals)
+                for blk in f.blocks:
+                    for st in blk["s"]:
+                        if st[0] == "A":
+                            if st[2]["k"] == "agg" and st[2]["a"].get("def"):
+                                tys.add(st[2]["a"]["def"])
+                            for o in _rvalue_operands(st[2]):
+                                k = o.get("k")
+                                if k and "ty" in k:
+                                    tys.add(k["ty"])
+                    if blk["t"]["k"] == "call":
+                        for o in blk["t"]["args"]:
+                            k = o.get("k")
+                            if k and "ty" in k:
+                                tys.add(k["ty"])
+                for t in tys:
+                    base = t.split("<")[0]
+                    if base in self._ext_impls:
+                        for gid in self._ext_impls[base]:
+                            if gid != fid:
+                                s.add(gid)
             self._callees[fid] = s
         return self._callees[fid]
 
